@@ -299,10 +299,12 @@ int vw_spawn(int p, void (*entry)(void *), void *arg)
 	return p;
 }
 
+extern volatile long xp_progress __attribute__((weak));
 static void resume(int p)
 {
 	if (W.cur != -1) vw_fatal("nested resume");
 	W.cur = p;
+	if (&xp_progress) xp_progress++;
 #if VW_ASAN
 	__sanitizer_start_switch_fiber(&sched_fake, W.proc[p].stack, W.proc[p].stacksz);
 #endif
